@@ -745,57 +745,15 @@ def path_initorder(p, res):
 # ---------------------------------------------------------- PATH-PARSER-CTX
 @rule('PATH-PARSER-CTX', 'N', 'parser statements(): append once, descend on >, stay on +, climb on ^ only while the stack is non-empty')
 def path_parser_ctx(p, res):
-    from ..pattern import find_stmt, match_stmt, find_expr
-    f = p.func('abbreviation.parser.statements')
-    loops = [n for n in f.node.body if isinstance(n, ast.While)]
-    if len(loops) != 1:
-        raise AnalysisError('PATH-PARSER-CTX: statements() has %d top-level loops' % len(loops))
-    lp = loops[0]
-    # the element is appended exactly once, to the current context, right after it was parsed
-    apps = find_expr('$ctx.elements.append($node)', lp)
-    if len(apps) == 1:
-        b = apps[0][1]
-        ctx, node = src_of(b['ctx']), src_of(b['node'])
-        res.ok('%s.elements.append(%s) once per iteration' % (ctx, node))
-    else:
-        res.bad(F('PATH-PARSER-CTX', f, lp, 'ctx.elements.append(node)', 'every parsed element must be appended to the current context exactly once (%d append sites)' % len(apps)))
-        return
-    # child operator: push the context, descend
-    child = [n for n in ast.walk(lp) if isinstance(n, ast.If) and 'is_child_operator' in src_of(n.test)]
-    okc = len(child) == 1 and [src_of(x) for x in child[0].body] == ['stack.append(%s)' % ctx, '%s = %s' % (ctx, node)]
-    if okc:
-        res.ok('>: stack.append(ctx); ctx = node')
-    else:
-        res.bad(F('PATH-PARSER-CTX', f, child[0] if child else lp, ' ; '.join(src_of(x) for x in child[0].body) if child else '?',
-                  'after > the current context is pushed and the new element becomes the context'))
-    sib = [n for n in ast.walk(lp) if isinstance(n, ast.If) and 'is_sibling_operator' in src_of(n.test)]
-    oks = len(sib) == 1 and [src_of(x) for x in sib[0].body] == ['continue']
-    if oks:
-        res.ok('+: context unchanged')
-    else:
-        res.bad(F('PATH-PARSER-CTX', f, sib[0] if sib else lp, ' ; '.join(src_of(x) for x in sib[0].body) if sib else '?', 'after + neither the stack nor the context changes'))
-    climb = [n for n in ast.walk(lp) if isinstance(n, ast.While) and n is not lp and 'is_climb_operator' in src_of(n.test)]
-    okk = len(climb) == 1 and len(climb[0].body) == 1 and isinstance(climb[0].body[0], ast.If) \
-        and src_of(climb[0].body[0].test) in ('len(stack)', 'stack', 'len(stack) > 0') and [src_of(x) for x in climb[0].body[0].body] == ['%s = stack.pop()' % ctx]
-    if okk:
-        res.ok('^: one pop per ^, only while the stack is non-empty (stops at the top level)')
-    else:
-        res.bad(F('PATH-PARSER-CTX', f, climb[0] if climb else lp, src_of(climb[0]).replace('\n', ' ; ') if climb else '?',
-                  'each ^ pops one context and must be guarded by a non-empty stack (climbing stops at the top level)'))
-    # no other writes to ctx / stack
-    others = [n for n in ast.walk(lp) if isinstance(n, ast.Assign) and src_of(n.targets[0]) == ctx]
-    if len(others) == 2:
-        res.ok('ctx is assigned only on the > and ^ edges')
-    else:
-        res.bad(F('PATH-PARSER-CTX', f, lp, 'assignments to %s' % ctx, 'the context may only change on > and ^ (%d assignment sites)' % len(others)))
-    # group(): a group is closed by ) and takes a repeater only then
-    g = p.func('abbreviation.parser.group')
-    s = src_of(g.node)
-    if "if scanner.consume(is_group_start):\n        result = statements(scanner, options)\n        token = scanner.next()\n        if is_bracket(token, 'group', False):\n            result.repeat = repeater(scanner)\n        return result" in s:
-        res.ok('group(): ( statements ) repeater?')
-    else:
-        res.bad(F('PATH-PARSER-CTX', g, g.node, 'group() body', 'a group is `(` statements `)` followed by an optional repeater'))
-    res.require_floor(6)
+    """decision tables of one iteration of statements() (the parsed element is appended to the current context exactly once;
+    after > the context is pushed and the element becomes the context; after + nothing changes; each ^ pops one context,
+    only while the stack is non-empty) and of group() (`(` statements `)` optional repeater) against the reviewed ones"""
+    from .tablecheck import check_table
+    check_table(p, res, 'PATH-PARSER-CTX', 'abbreviation.parser.statements',
+                'every parsed element is appended to the current context once; > pushes the context and descends; + keeps it; each ^ pops one context and stops at the top level')
+    check_table(p, res, 'PATH-PARSER-CTX', 'abbreviation.parser.group', 'a group is `(` statements `)` followed by an optional repeater')
+    check_table(p, res, 'PATH-PARSER-CTX', 'abbreviation.parser.element', 'an element is name, attributes / shorthands and text in any order, then the self-closing mark and the repeater; it must consume something')
+    res.require_floor(3)
 
 
 # ---------------------------------------------------------------- PATH-ONCE
